@@ -165,7 +165,39 @@ func c11Confinement(c *core.Ctx) {
 						if _, isAlloc := x.Addr.(*ssa.Alloc); isAlloc {
 							return
 						}
-						if _, isIA := x.Addr.(*ssa.IndexAddr); isIA {
+						if ia, isIA := x.Addr.(*ssa.IndexAddr); isIA {
+							// element of a []string literal: fine if that literal is the value of
+							// the form key "refresh_token" in a url.Values literal / map update
+							if s.what == "refresh token" {
+								if al, isAl := ia.X.(*ssa.Alloc); isAl {
+									okForm, n := true, 0
+									for _, ref := range *al.Referrers() {
+										sl, isSl := ref.(*ssa.Slice)
+										if !isSl {
+											continue
+										}
+										for _, r2 := range *sl.Referrers() {
+											mu, isMU := r2.(*ssa.MapUpdate)
+											if !isMU || mu.Value != ssa.Value(sl) {
+												if _, dbg := r2.(*ssa.DebugRef); !dbg {
+													okForm = false
+												}
+												continue
+											}
+											n++
+											k, _ := facts.ConstString(mu.Key)
+											isValues := strings.HasSuffix(mu.Map.Type().String(), "url.Values") || mu.Map.Type().String() == "map[string][]string"
+											if k != "refresh_token" || !isValues {
+												okForm = false
+											}
+										}
+									}
+									if n > 0 {
+										c.Check(okForm, "C11.R2", key, x.Pos(), "refresh token -> url.Values{\"refresh_token\": ...}", "the refresh token is placed in a form under a key other than refresh_token, or in something that is not the token request's form")
+										return
+									}
+								}
+							}
 							// packed into a variadic argument array: find the consumer
 							c.Fail("C11.R1", key, x.Pos(), "the "+s.what+" is passed as a variadic argument (formatting/logging)")
 							return
